@@ -76,6 +76,11 @@ func Explore(cfg Config, res *core.Result) core.Sub {
 	if cfg.Parallel <= 0 {
 		cfg.Parallel = 1
 	}
+	if cfg.MaxStates == 0 {
+		// memory safety net (the sandbox has no memory limit): a search that
+		// gets here ends with exhaustive=false and the depth it completed
+		cfg.MaxStates = 20_000_000
+	}
 	seen := map[key]struct{}{}
 	var seenMu sync.Mutex
 	var outcomes core.Outcomes
